@@ -1,169 +1,11 @@
 import Ase.Chunks
 /-
-  An executable zlib (RFC 1950/1951) inflater: the driver's instance of the model's `inflate`
-  parameter, and a stored-block deflater for the generator.  No theorem depends on this file;
-  theorems quantify over every `inflate`.  The correspondence check compares this instance
-  with flate2 on every stream it meets (see DESIGN 4.4).
-
-  Port of zlib's `contrib/puff/puff.c`, with the one deviation of the real decoder from zlib
-  noted in `codes` (distances before the start of the output).
+  zlib (RFC 1950) pieces used on the ENCODING side: Adler-32 and a stored-block deflater for the
+  generator.  The decoder — the driver's instance of the model's `inflate` parameter — is the
+  total `Ase.ZlibT.inflate` in `Ase/InflateT.lean`; `AseProofs/Props/C12Inflate.lean` proves that
+  it inverts `deflateStored`.
 -/
 namespace Ase.Zlib
-
-structure St where
-  data : ByteArray
-  pos : Nat            -- bit position
-  out : ByteArray
-
-inductive ZErr where
-  | eof        -- ran out of input (flate2: UnexpectedEof)
-  | corrupt    -- anything else (flate2: InvalidInput "corrupt deflate stream")
-  deriving Repr, DecidableEq
-
-abbrev ZM := ExceptT ZErr (StateM St)
-
-@[inline] def getBit : ZM Nat := do
-  let s ← get
-  let byteIdx := s.pos / 8
-  if byteIdx ≥ s.data.size then throw .eof
-  let b := s.data.get! byteIdx
-  set { s with pos := s.pos + 1 }
-  pure ((b.toNat >>> (s.pos % 8)) % 2)
-
-def getBits : Nat → ZM Nat
-  | 0 => pure 0
-  | n + 1 => do
-      let b ← getBit
-      let rest ← getBits n
-      pure (b + 2 * rest)
-
-structure Huff where
-  count : Array Nat     -- number of codes of each length 0..15
-  symbol : Array Nat    -- symbols ordered by code
-
-/-- returns the table and `left` (< 0 over-subscribed, > 0 incomplete) -/
-def construct (lengths : Array Nat) : Huff × Int := Id.run do
-  let mut count : Array Nat := Array.replicate 16 0
-  for l in lengths do
-    count := count.modify l (· + 1)
-  let mut left : Int := 1
-  let mut bad := false
-  for len in [1:16] do
-    left := left * 2 - (count[len]! : Int)
-    if left < 0 then bad := true
-  let mut offs : Array Nat := Array.replicate 16 0
-  for len in [1:15] do
-    offs := offs.set! (len + 1) (offs[len]! + count[len]!)
-  let mut symbol : Array Nat := Array.replicate lengths.size 0
-  let mut i : Nat := 0
-  for l in lengths do
-    if l != 0 then
-      symbol := symbol.set! offs[l]! i
-      offs := offs.modify l (· + 1)
-    i := i + 1
-  (⟨count, symbol⟩, if bad then -1 else left)
-
-def decodeSym (h : Huff) : ZM Nat := do
-  let mut code : Int := 0
-  let mut first : Int := 0
-  let mut index : Int := 0
-  for len in [1:16] do
-    let b ← getBit
-    code := code + b
-    let cnt : Int := h.count[len]!
-    if code - cnt < first then
-      return h.symbol[(index + (code - first)).toNat]!
-    index := index + cnt
-    first := (first + cnt) * 2
-    code := code * 2
-  throw .corrupt
-
-def lbase : Array Nat := #[3,4,5,6,7,8,9,10,11,13,15,17,19,23,27,31,35,43,51,59,67,83,99,115,131,163,195,227,258]
-def lext : Array Nat := #[0,0,0,0,0,0,0,0,1,1,1,1,2,2,2,2,3,3,3,3,4,4,4,4,5,5,5,5,0]
-def dbase : Array Nat := #[1,2,3,4,5,7,9,13,17,25,33,49,65,97,129,193,257,385,513,769,1025,1537,2049,3073,4097,6145,8193,12289,16385,24577]
-def dext : Array Nat := #[0,0,0,0,1,1,2,2,3,3,4,4,5,5,6,6,7,7,8,8,9,9,10,10,11,11,12,12,13,13]
-
-partial def codes (lencode distcode : Huff) : ZM Unit := do
-  let sym ← decodeSym lencode
-  if sym < 256 then
-    modify (fun s => { s with out := s.out.push (UInt8.ofNat sym) })
-    codes lencode distcode
-  else if sym == 256 then pure ()
-  else
-    let si := sym - 257
-    if si ≥ 29 then throw .corrupt
-    let len := lbase[si]! + (← getBits lext[si]!)
-    let ds ← decodeSym distcode
-    if ds ≥ 30 then throw .corrupt
-    let dist := dbase[ds]! + (← getBits dext[ds]!)
-    let s ← get
-    -- flate2's streaming decoder (miniz_oxide) inflates into a zero-initialised 32 KiB circular
-    -- dictionary and rejects only distances above 32768 (which cannot be encoded): a distance
-    -- that reaches before the start of the output is NOT an error, those bytes read as 0
-    let mut out := s.out
-    for _ in [0:len] do
-      out := out.push (if out.size ≥ dist then out.get! (out.size - dist) else 0)
-    set { s with out := out }
-    codes lencode distcode
-
-def fixedTables : Huff × Huff :=
-  let lens := (Array.replicate 144 8) ++ (Array.replicate 112 9) ++ (Array.replicate 24 7) ++ (Array.replicate 8 8)
-  ((construct lens).1, (construct (Array.replicate 30 5)).1)
-
-def clOrder : Array Nat := #[16,17,18,0,8,7,9,6,10,5,11,4,12,3,13,2,14,1,15]
-
-partial def readLengths (lencode : Huff) (total : Nat) (acc : Array Nat) : ZM (Array Nat) := do
-  if acc.size ≥ total then return acc
-  let sym ← decodeSym lencode
-  if sym < 16 then readLengths lencode total (acc.push sym)
-  else
-    let (len, rep) ←
-      if sym == 16 then do
-        if acc.size == 0 then throw .corrupt
-        pure (acc[acc.size - 1]!, 3 + (← getBits 2))
-      else if sym == 17 then do pure (0, 3 + (← getBits 3))
-      else do pure (0, 11 + (← getBits 7))
-    if acc.size + rep > total then throw .corrupt
-    readLengths lencode total (acc ++ Array.replicate rep len)
-
-def dynamicBlock : ZM Unit := do
-  let nlen := (← getBits 5) + 257
-  let ndist := (← getBits 5) + 1
-  let ncode := (← getBits 4) + 4
-  if nlen > 286 || ndist > 30 then throw .corrupt
-  let mut cl := Array.replicate 19 0
-  for i in [0:ncode] do
-    cl := cl.set! clOrder[i]! (← getBits 3)
-  let (lencode, left) := construct cl
-  if left != 0 then throw .corrupt
-  let lengths ← readLengths lencode (nlen + ndist) #[]
-  if lengths[256]! == 0 then throw .corrupt
-  let (lc, l1) := construct (lengths.extract 0 nlen)
-  if l1 != 0 && (l1 < 0 || nlen != lc.count[0]! + lc.count[1]!) then throw .corrupt
-  let (dc, l2) := construct (lengths.extract nlen (nlen + ndist))
-  if l2 != 0 && (l2 < 0 || ndist != dc.count[0]! + dc.count[1]!) then throw .corrupt
-  codes lc dc
-
-def storedBlock : ZM Unit := do
-  modify (fun s => { s with pos := (s.pos + 7) / 8 * 8 })
-  let s ← get
-  let p := s.pos / 8
-  if p + 4 > s.data.size then throw .eof
-  let len := (s.data.get! p).toNat + 256 * (s.data.get! (p + 1)).toNat
-  let nlen := (s.data.get! (p + 2)).toNat + 256 * (s.data.get! (p + 3)).toNat
-  if len + nlen != 65535 then throw .corrupt
-  if p + 4 + len > s.data.size then throw .eof
-  set { s with pos := (p + 4 + len) * 8, out := s.out ++ s.data.extract (p + 4) (p + 4 + len) }
-
-partial def blocks : ZM Unit := do
-  let last ← getBit
-  let ty ← getBits 2
-  match ty with
-  | 0 => storedBlock
-  | 1 => let (l, d) := fixedTables; codes l d
-  | 2 => dynamicBlock
-  | _ => throw .corrupt
-  if last == 1 then pure () else blocks
 
 def adler32 (bs : ByteArray) : Nat := Id.run do
   let mut a := 1
@@ -172,30 +14,6 @@ def adler32 (bs : ByteArray) : Nat := Id.run do
     a := (a + x.toNat) % 65521
     b := (b + a) % 65521
   b * 65536 + a
-
-def inflateZlib (input : ByteArray) : Except ZErr ByteArray :=
-  if input.size < 2 then .error .eof else
-  let cmf := (input.get! 0).toNat
-  let flg := (input.get! 1).toNat
-  if cmf % 16 != 8 || cmf / 16 > 7 || (cmf * 256 + flg) % 31 != 0 || (flg / 32) % 2 == 1 then
-    .error .corrupt
-  else
-    let (r, s) := (blocks.run).run ⟨input, 16, ByteArray.empty⟩
-    match r with
-    | .error e => .error e
-    | .ok () =>
-        let p := (s.pos + 7) / 8
-        if p + 4 > input.size then .error .eof else
-        let stored := (input.get! p).toNat * 16777216 + (input.get! (p+1)).toNat * 65536
-                      + (input.get! (p+2)).toNat * 256 + (input.get! (p+3)).toNat
-        if stored != adler32 s.out then .error .corrupt else .ok s.out
-
-/-- code 1 = `InvalidInput`-class error of the harness' kind table -/
-def inflate : Inflate := fun bs =>
-  match inflateZlib ⟨bs.toArray⟩ with
-  | .ok out => .ok out.data.toList
-  | .error .eof => .err (.io .unexpectedEof)
-  | .error .corrupt => .err (.io (.other 1))
 
 /-- zlib stream made of stored blocks only (for the generator) -/
 def deflateStored (bs : Bytes) : Bytes :=
